@@ -482,6 +482,26 @@ def rule_W_BK(ctx, d, paths, label=None):
     ctx.ob('W-BK', construct)
 
 
+def rule_W_BKUNBOUNDED(ctx, d):
+    """W-BK (the bookkeeping containers discard nothing on their own): a `deque(maxlen=n)` drops an element from the opposite end whenever one is added to a full
+    queue.  The wrappers keep the uses of the keys (and a sentinel during compaction) in that queue and pair every element with a reference count: a silently
+    dropped element is a recorded use that is lost - the key it named is ranked by an older use or not ranked at all - and the counts no longer match the queue."""
+    fn = d.call_fi.node
+    n = 0
+    for x in ast.walk(fn):
+        if isinstance(x, ast.Call) and ((isinstance(x.func, ast.Name) and x.func.id == 'deque') or (isinstance(x.func, ast.Attribute) and x.func.attr == 'deque')):
+            n += 1
+            bounded = any(k.arg == 'maxlen' and not (isinstance(k.value, ast.Constant) and k.value.value is None) for k in x.keywords) or len(x.args) > 1 \
+                or any(k.arg is None for k in x.keywords)
+            ctx.ob('W-BK', '%s: the queue built at line %d is unbounded' % (d.name, x.lineno), not bounded)
+            if bounded:
+                ctx.fail('W-BK', d.qual, 'bounded recency queue %s' % unparse(x)[:40],
+                         '%s keeps the order of use in `%s`: a bounded deque silently discards the element at the other end when one is added to a full queue '
+                         '(appendleft of the compaction sentinel drops the use recorded last, append drops the oldest use without touching its reference count), '
+                         'so a recorded use is lost and the entry evicted next is no longer the one the policy names' % (d.name, unparse(x)[:60]), where(d, x.lineno))
+    return n
+
+
 def rule_W_BKRES(ctx, d, paths):
     """bookkeeping only ever names resident keys: the current key is recorded only after it was found or stored"""
     K = d.K()
@@ -1306,8 +1326,8 @@ def is_count_key(kwv):
     return False
 
 
-def lfu_victim_source(term, N):
-    """is `term` the n>=1 smallest of N.items() by count"""
+def lfu_victim_source(term, N, truth=None):
+    """is `term` the n>=1 smallest of N.items() by count (truth: the path's facts - `n > 0` may have been tested by a loop guard)"""
     t = term
     if t[0] == 'iter':
         t = t[1]
@@ -1324,6 +1344,10 @@ def lfu_victim_source(term, N):
     ln = libname(t[1])
     if ln == 'nsmallest' and len(t[2]) >= 2:
         n = lower_bound(t[2][0])
+        if (n is None or n < 1) and truth:
+            for tt, b in truth.items():
+                if b is True and tt[0] == 'cmp' and ((tt[1] == '>' and tt[2] == t[2][0] and tt[3] == C(0)) or (tt[1] == '>=' and tt[2] == t[2][0] and tt[3] == C(1))):
+                    n = 1
         keyok = any(k[0] == 'kw' and k[1] == 'key' and is_count_key(k[2]) for k in t[3]) or (len(t[2]) > 2 and is_count_key(t[2][2]))
         return n is not None and n >= 1 and keyok and has_items_view(t[2][1], N)
     return False
@@ -1358,7 +1382,7 @@ def pol_lfu(ctx, d, paths):
                          where(d, o.line), render_path(o))
         for i, e in ev_of(o, 'DEL', 'DELMISS'):
             v = e.args[0]
-            ok = v[0] == 'proj' and v[1] == 0 and lfu_victim_source(v[2], N)
+            ok = v[0] == 'proj' and v[1] == 0 and lfu_victim_source(v[2], N, o.st.facts.get('truth', {}))
             why = 'the LFU victim %s is not one of the n>=1 entries of %s.items() with the smallest count' % (render(v), d.bkname(N))
             if ok:
                 drop = [x for x in evs[i:] if x.kind == 'BK' and x.args[0] == N and x.args[1] in (C('popkey'), C('del')) and x.args[2] == v]
@@ -1669,6 +1693,38 @@ def rule_W_STATE(ctx, d, keys=('maxsize', 'purge'), allow_default=False):
             if v not in distinct:
                 distinct.append(v)
         ok = len(distinct) == 1 and distinct[0] is not None and (distinct[0] == ('param', k) or is_const(distinct[0]))
+        def normalised(v):
+            # helper(param[, constants]): the argument passed through a module-level function of nothing else (a normaliser that drains a one-shot iterator,
+            # wraps a bare name); wrapper, key() and lookup() all read this one stored value
+            if not (v is not None and v[0] == 'call' and v[1][0] in ('lib', 'opaque', 'global') and v[2] and v[2][0] == ('param', k)
+                    and all(is_const(a) for a in v[2][1:]) and all(kw[0] == 'kw' and is_const(kw[2]) for kw in v[3])):
+                return False
+            # ... which hands its argument back on every path (as it is, wrapped or drained): a path that answers with something that does not contain the
+            # argument - `if not ignore: return ()` - replaces legal falsy values (ignore=0 selects the first positional) and is no normaliser
+            hname = libname(v[1]) if v[1][0] == 'lib' else v[1][-1]
+            repo_ = getattr(d.module, 'repo', None)
+            cands = [m_.functions[hname] for m_ in (repo_.modules.values() if repo_ is not None else [d.module]) if hname in m_.functions]
+            if len(cands) != 1 or not cands[0].node.args.args:
+                return False
+            hfi = cands[0]
+            hp = ('param', hfi.node.args.args[0].arg)
+            try:
+                houts = Engine(PlainModel(hfi.module if hasattr(hfi, 'module') else d.module), unroll=1).run_function(hfi.node, {})
+            except Exception:
+                return False
+            for ho in houts:
+                if ho.kind != RETURN:
+                    continue
+                isnone_ = ho.st.facts.get('truth', {}).get(('cmp', 'is', hp, NONE))
+                if not contains_term(ho.val, lambda t: t == hp) and isnone_ is not True:
+                    return False
+            return True
+        if not ok and allow_default and any(normalised(v) for v in distinct):
+            vs = [(('param', k) if normalised(v) else v, o) for v, o in vs]
+            distinct = []
+            for v, o in vs:
+                if v not in distinct:
+                    distinct.append(v)
         if not ok and allow_default:
             # the parameter itself, or a constructed default - but only on a path where the parameter `is None`: replacing it whenever it is
             # falsy would also replace legal falsy values (ignore=0 selects the first positional)
